@@ -96,7 +96,7 @@ func buildProperties() []Property {
 		},
 		{
 			ID: "C12", Title: "The Solutions iterator never blocks, counts answers exactly and stops on Close",
-			Decides:    "typestate of the iterator: no send on the request channel after Close, Close closes it at most once and reports the repeat, no blocking send once the answer channel was found closed (Next after exhaustion returns false instead of blocking), every blocking receive of the search goroutine is released by Close and the answer channel is closed by a deferred close.",
+			Decides:    "typestate of the iterator: no send on the request channel after Close, Close closes it at most once and reports the repeat, no blocking send once the answer channel was found closed (Next after exhaustion returns false instead of blocking), every blocking receive of the search goroutine is released by Close and the answer channel is closed by a deferred close; the answer Scan reads is replaced only by an answer that was received (Scan after exhaustion reports the last one).",
 			NotDecided: "exactly-once delivery of answers, interleaving of two iterations, promptness, goroutine counts - histories and schedules.",
 			Rules: []RuleDef{
 				{"R-SCAN-OVERWRITES", 8, ruleScanOverwrites},
@@ -105,6 +105,7 @@ func buildProperties() []Property {
 				{"R-NO-SEND-WHEN-EXHAUSTED", 1, only("R-NO-SEND-WHEN-EXHAUSTED", ruleSolutionsTypestate)},
 				{"R-GOROUTINE-RELEASE", 2, only("R-GOROUTINE-RELEASE", ruleSolutionsTypestate)},
 				{"R-CLOSE-STOPS", 1, ruleCloseStops},
+				{"R-ANSWER-KEPT", 1, ruleAnswerKept},
 			},
 		},
 		{
